@@ -485,15 +485,14 @@ impl<'a> Searcher<'a> {
                         })
                         .collect::<Vec<usize>>();
 
-                    // a column is compared numerically only when all of its values are numbers:
-                    // deciding per pair of cells is not a total order ("2" < "10" < "1x" < "2")
-                    let numeric_columns = sorting_indices
+                    // the comparison follows the type of the ordering expression, as without GROUP BY:
+                    // numbers for numeric columns, functions and aggregates, text for everything else
+                    // (one decision per column - deciding per pair of cells is not a total order)
+                    let numeric_columns = self
+                        .query
+                        .ordering_fields
                         .iter()
-                        .map(|i| {
-                            results
-                                .iter()
-                                .all(|row| row.get(*i).is_some_and(|cell| cell.1.parse::<f64>().is_ok_and(|number| !number.is_nan())))
-                        })
+                        .map(|expr| expr.contains_numeric())
                         .collect::<Vec<bool>>();
 
                     results.sort_by(|a, b| {
